@@ -18,9 +18,9 @@ as rationals):
   polylog(1, z) = -ln(1-z): real z < 1, real z > 1 (principal log: -ln(z-1) - i PI), complex dyadic z (-clog(1-z));
   polylog(0, z) = z/(1-z), polylog(-n, z) = sum_{k<=n} k! S(n+1,k+1) (z/(1-z))^(k+1), n <= 30: exact (Gaussian) rational
   for real and complex dyadic z inside the disk, in the annulus 0.75 < |z| < 1.4 and outside;
-  polylog(2, z): Li2(1) = PI^2/6, Li2(-1) = -PI^2/12, Li2(1/2) = PI^2/12 - ln(2)^2/2; for x in [1/16, 15/16]
-  Li2(x) = Li2(1/2) - RInt (ln(1-t)/t) (1/2) x and for x in [-8, -1/16] Li2(x) = Li2(-1) - RInt (ln(1-t)/t) (-1) x
-  (proper integrals, precisions <= 113);
+  polylog(2, z): Li2(1) = PI^2/6, Li2(-1) = -PI^2/12, Li2(1/2) = PI^2/12 - ln(2)^2/2; for x in [1/8, 15/16]
+  Li2(x) = Li2(1/2) - RInt (ln(1-t)/t) (1/2) x and for x in [-6, -1/8] Li2(x) = Li2(-1) - RInt (ln(1-t)/t) (-1) x
+  (proper integrals; precisions 15 and 53 in the quick tier, 113 only in the thorough tier: one such lemma costs 5-40 s CPU);
   bernpoly(n, x), eulerpoly(n, x), n <= 80, at dyadic x in [-16, 16] (exact rational), at x in {0, 1/2, 1} (including the
   exact zeros) and -- separate regime "near-zero" -- at the dyadic point next to a real root of the polynomial;
   Hurwitz zeta(-n, a) = -B_{n+1}(a)/(n+1) for dyadic a > 0 (exact mpf) and rational a = (p, q) (mpmath keeps the tuple as
@@ -58,7 +58,7 @@ NOT_DECIDED = [
     "stieltjes, primezeta, siegeltheta, siegelz, grampoint, riemannr, secondzeta: no reference available (not even a metamorphic one "
     "with rational coefficients)",
     "lerchphi at general (z, s, a) and polylog(s, z) for s not in {1, 0, -1, -2, ...} and s != 2: only identities among the "
-    "functions themselves (metamorphic, integer s = 2..8, real 0 < x < 1); polylog(2, z) for complex z and for real z > 1 or z < -8",
+    "functions themselves (metamorphic, integer s = 2..8, real 0 < x < 1); polylog(2, z) for complex z and for real z outside [-6, -1/8] u [1/8, 15/16] u {1}",
     "dirichlet(0, [0,1,1]) (true value 0, mpmath returns rounding noise of size 2^-(p+10); relative error undefined), Hurwitz "
     "zeta(-n, a) at the points where B_{n+1}(a) = 0, complex a, a <= 0",
     "arguments with more significant bits than the working precision (all sampled inputs have at most p bits)",
@@ -471,7 +471,7 @@ def g_polylog_neg_series(rng, p):
 
 
 def li2_term(x):
-    """Li2(x) as a certified term with a proper integral (x in [-8,-1/16] or [1/16,15/16])"""
+    """Li2(x) as a certified term with a proper integral (x in [-6,-1/8] or [1/8,15/16])"""
     t = var("t")
     f = ln(1 - t) / t
     X = Const(x)
@@ -486,12 +486,12 @@ def li2_term(x):
 
 def g_li2(rng, p):
     b = rng.choice([4, 6, 10, 16])
-    b = min(b, p - 6)
+    b = max(4, min(b, p - 6))
     u = rng.random()
     while True:
-        if u < 0.45: x = rand_dyadic(rng, Fraction(1, 16), Fraction(15, 16), max(b, 4))
-        elif u < 0.75: x = rand_dyadic(rng, -1, Fraction(-1, 16), max(b, 4))
-        else: x = rand_dyadic(rng, -8, -1, b)
+        if u < 0.45: x = rand_dyadic(rng, Fraction(1, 8), Fraction(15, 16), b)
+        elif u < 0.75: x = rand_dyadic(rng, -1, Fraction(-1, 8), b)
+        else: x = rand_dyadic(rng, -6, -1, b)
         if x not in (Fraction(1, 2), Fraction(-1)): return [x]
 
 
@@ -650,8 +650,10 @@ reg("polylog_nonpos_series", "polylog", lambda c, n, z: c.polylog(-n, M(c, z)), 
     build=b_polylog_nonpos, w=1.2, regime="order <= -2 series-cancellation")
 # 6 dilogarithm
 reg("polylog2_special", "polylog", c_li2_special, r_li2_special, lambda rng, p: [rng.randint(0, 4)], w=1.0, regime="order 2 special")
-reg("polylog2_integral", "polylog", lambda c, x: c.polylog(2, M(c, x)), li2_term, g_li2, w=2.2, regime="order 2 integral",
-    maxprec=113, params={"i_degree": 14})
+reg("polylog2_integral", "polylog", lambda c, x: c.polylog(2, M(c, x)), li2_term, g_li2, w=1.0, regime="order 2 integral",
+    maxprec=53, params={"i_degree": 20})
+reg("polylog2_integral_p113", "polylog", lambda c, x: c.polylog(2, M(c, x)), li2_term, g_li2, w=0.6, regime="order 2 integral",
+    precs=[113], tiers=("thorough",), params={"i_degree": 30})
 MM = "metamorphic"
 reg("m_li2_reflection", "polylog(2,x) & polylog(2,1-x)", lambda c, x: (c.polylog(2, M(c, x)), c.polylog(2, M(c, 1 - x))),
     gen=lambda rng, p: [g_x(rng, p, Fraction(1, 64), Fraction(63, 64), avoid=(Fraction(1, 2),))], build=b_li2_reflect, w=1.5, regime=MM)
